@@ -3,6 +3,7 @@
 -/
 import Axelar.Proofs.GwHistory
 import Axelar.Proofs.TokenManagerProofs
+import Axelar.Proofs.ItsMintStep
 namespace Axelar.Props.C18
 open Axelar Axelar.ItsW Axelar.Its Codec
 
@@ -239,6 +240,73 @@ theorem zero_supply_without_minter_refused (C : Crypto) (cx : ICtx) (salt n s : 
     · by_cases hz : Gateway.isZeroAddr m = true
       · simp [hz]
       · simp [hz, h]
+  · simp
+
+/-! ### The local flow's third transaction: the initial supply is minted once, the roles go to the nominated minter -/
+
+/-- **Mint and hand-over, exactly.**  A successful third factory transaction (initial supply
+    > 0) for a nominated minter other than the service: the deployer (the caller) receives
+    exactly the requested supply of the manager's token, freshly minted — no other balance of
+    any account in any asset changes —; afterwards the service holds none of the minter,
+    operator and flow-limiter roles on that manager and the nominated minter holds all three;
+    the recorded token is unchanged.  The step was possible only because the service held the
+    minter role. -/
+theorem mint_step_mints_the_supply_and_hands_over (C : Crypto) (cx : ICtx) (tm minter : Bytes) (supply : Nat)
+    (t t' : Tx) (hk : t.w.kind tm = some .tokenManager) (hne : minter ≠ cx.self)
+    (h : factoryMintStep C cx tm minter supply t = some ((), t')) :
+    ((t.w.tms tm).roles cx.self).minter = true ∧
+    (t'.w.tms tm).roles cx.self = {} ∧ (t'.w.tms tm).roles minter = ⟨true, true, true⟩ ∧
+    (t'.w.tms tm).tokenIdentifier = (t.w.tms tm).tokenIdentifier ∧
+    ∃ tk, TokenManager.tokOfBytes (t.w.tms tm).tokenIdentifier = some tk ∧
+      World.Led t.w t'.w World.nil (World.pt cx.caller (some tk) supply) := by
+  obtain ⟨h1, h2, h3, h4, _, _, h7⟩ := factoryMintStep_roles C cx tm minter supply t t' hk hne h
+  exact ⟨h1, h2, h3, h4, h7⟩
+
+/-- **Exactly once**: without the minter role on the manager the mint step fails — so after a
+    successful mint step (which leaves the service with no role at all) it cannot be repeated,
+    whatever supply and minter the repetition names. -/
+theorem mint_step_needs_the_minter_role (C : Crypto) (cx : ICtx) (tm minter : Bytes) (supply : Nat) (t : Tx)
+    (hk : t.w.kind tm = some .tokenManager) (hno : ((t.w.tms tm).roles cx.self).minter = false) :
+    factoryMintStep C cx tm minter supply t = none := by
+  cases h : factoryMintStep C cx tm minter supply t with
+  | none => rfl
+  | some x =>
+    obtain ⟨u, t'⟩ := x
+    cases u
+    -- the first call is `mint`, which requires the role
+    simp only [factoryMintStep, run_bind] at h
+    cases h1 : subcall C cx tm "mint" 0 [] [cx.caller, encNat supply] t with
+    | none => simp [h1] at h
+    | some x1 =>
+      obtain ⟨r1, t1⟩ := x1
+      obtain ⟨o1, c1, _⟩ := subcall_tm_call C cx tm _ _ t t1 r1 hk h1
+      obtain ⟨_, hmint, _⟩ := call_mint _ _ _ _ _ _ _ c1
+      rw [hno] at hmint
+      cases hmint
+
+theorem mint_step_cannot_be_repeated (C : Crypto) (cx cx2 : ICtx) (tm minter minter2 : Bytes) (supply supply2 : Nat)
+    (t t' : Tx) (hk : t.w.kind tm = some .tokenManager) (hne : minter ≠ cx.self) (hself : cx2.self = cx.self)
+    (h : factoryMintStep C cx tm minter supply t = some ((), t')) :
+    factoryMintStep C cx2 tm minter2 supply2 t' = none := by
+  obtain ⟨_, h2, _, _, hkind, _, _⟩ := factoryMintStep_roles C cx tm minter supply t t' hk hne h
+  apply mint_step_needs_the_minter_role
+  · rw [hkind]; exact hk
+  · rw [hself, h2]
+
+/-- **The service itself is never accepted as the nominated minter** of a local deployment
+    (with or without an initial supply): it could not hand the roles over and the mint step
+    could be repeated (defect F7, repaired by the `fix:` commit named in known_findings.json). -/
+theorem service_is_never_the_nominated_minter (C : Crypto) (cx : ICtx) (salt n s : Bytes) (d supply : Nat) (t : Tx) :
+    factoryDeployInterchainToken C cx salt n s d supply cx.self t = none := by
+  simp only [factoryDeployInterchainToken, run_bind, requireNotPaused_run]
+  cases hp : t.w.its.paused
+  · simp only [Bool.false_eq_true, if_false, run_getI]
+    by_cases hs : supply > 0
+    · simp [hs]
+    · simp only [hs, if_false]
+      by_cases hz : Gateway.isZeroAddr cx.self = true
+      · simp [hz]
+      · simp [hz]
   · simp
 
 /-! ### Non-vacuity (test) -/
